@@ -108,6 +108,14 @@ class Runtime:
         return mp
 
     @staticmethod
+    def _as_ir(m):
+        """An ir.Model for IR-level entry points (models with external initializers are already ir.Models)."""
+        import onnx
+        import onnx_ir as ir
+
+        return ir.serde.deserialize_model(m) if isinstance(m, onnx.ModelProto) else m
+
+    @staticmethod
     def _norm(model):
         """Digest of the model after a round trip through the IR (so proto- and IR-level results compare)."""
         import onnx
@@ -142,6 +150,28 @@ class Runtime:
             import onnx_ir as ir
 
             model = ir.from_onnx_text(m["text"])
+            ext = m.get("external")
+            scratch = os.environ.get("DSIM_SCRATCH")
+            if ext and scratch:
+                # a model loaded with external data: its initializers live in "<base_dir>/weights.bin" — and that file may
+                # be missing (a model loaded without its weights). base_dir differs per model, the relative location not.
+                import numpy as np
+
+                base = os.path.join(scratch, "m" + _sha(m["text"].encode() + repr(ext).encode())[:10])
+                os.makedirs(base, exist_ok=True)
+                off, blobs = 0, []
+                for name, v in model.graph.initializers.items():
+                    t = v.const_value
+                    if t is None or t.dtype == ir.DataType.STRING:
+                        continue
+                    raw = t.tobytes()
+                    v.const_value = ir.ExternalTensor("weights.bin", off, len(raw), t.dtype, shape=t.shape, name=name, base_dir=base)
+                    blobs.append(raw)
+                    off += len(raw)
+                if ext.get("present", True):
+                    with open(os.path.join(base, "weights.bin"), "wb") as fh:
+                        fh.write(b"".join(blobs))
+                return model   # handed over as an ir.Model: a ModelProto would lose base_dir
             return ir.serde.serialize_model(model)
         if m["pool"] == "onnx_backend":
             base = os.path.join(os.path.dirname(onnx.__file__), "backend", "test", "data", m["path"])
@@ -187,9 +217,18 @@ class Runtime:
         if reuse:
             ns = self.modules[h]
         else:
-            # file names of exec'ed code are often shared ("<string>", a notebook cell): some scripts use one common name
-            fname = "<dsim-shared-source>" if op.get("shared_filename") else f"<dsim-script-{h}-{len(self.modules)}>"
-            linecache.cache[fname] = (len(src), None, src.splitlines(True), fname)
+            scratch = os.environ.get("DSIM_SCRATCH")
+            if op.get("shared_filename") and scratch:
+                # a real file that is overwritten by each such script (an edited module that is re-imported, a notebook
+                # cell file): source look-ups go through linecache's own staleness check, nothing is pre-seeded
+                fname = os.path.join(scratch, "shared_module.py")
+                with open(fname, "w", encoding="utf-8") as fh:
+                    fh.write(src)
+                self._n_shared = getattr(self, "_n_shared", 0) + 1
+                os.utime(fname, (1_700_000_000 + self._n_shared, 1_700_000_000 + self._n_shared))  # a visible mtime step
+            else:
+                fname = f"<dsim-script-{h}-{len(self.modules)}>"
+                linecache.cache[fname] = (len(src), None, src.splitlines(True), fname)
             import types
 
             modname = f"dsim_script_{h}_{len(self.modules)}"
@@ -286,11 +325,11 @@ class Runtime:
         if api == "proto":
             out = opt.optimize(mp, **opts)
         elif api == "ir":
-            m = ir.serde.deserialize_model(mp)
+            m = self._as_ir(mp)
             out = opt.optimize(m, **opts)
         elif api == "ir_should_fold":
             # a caller-supplied callback that raises on its j-th call
-            m = ir.serde.deserialize_model(mp)
+            m = self._as_ir(mp)
             j = op["raise_at"]
             calls = [0]
 
@@ -310,19 +349,19 @@ class Runtime:
                 self.long[key] = cf.FoldConstantsPass(shape_inference=opts.get("onnx_shape_inference", True),
                                                       input_size_limit=opts.get("input_size_limit", cf.DEFAULT_CONSTANT_FOLD_INPUT_SIZE_LIMIT),
                                                       output_size_limit=opts.get("output_size_limit", cf.DEFAULT_CONSTANT_FOLD_OUTPUT_SIZE_LIMIT))
-            m = ir.serde.deserialize_model(mp)
+            m = self._as_ir(mp)
             r = self.long[key](m)
             out = r.model
             return {"model": self._serialize(out), "modified": str(bool(r.modified))}
         elif api == "fold":
-            m = ir.serde.deserialize_model(mp)
+            m = self._as_ir(mp)
             r = opt.fold_constants(m, **opts)
             return {"model": self._serialize(m), "modified": str(bool(r.modified))}
         elif api == "remove_unused":
             out = mp
             opt.remove_unused_nodes(out)
         elif api == "inline":
-            m = ir.serde.deserialize_model(mp)
+            m = self._as_ir(mp)
             opt.inline(m)
             out = m
         else:
@@ -399,11 +438,11 @@ class Runtime:
             if api == "proto":
                 out = rewriter.rewrite(mp)
             elif api == "ir":
-                out = rewriter.rewrite(ir.serde.deserialize_model(mp))
+                out = rewriter.rewrite(self._as_ir(mp))
             else:  # long-lived RewritePass over the module-level default tuple
                 if "rewrite_pass" not in self.long:
                     self.long["rewrite_pass"] = rewriter.RewritePass(rewriter._DEFAULT_REWRITE_RULES)
-                m = ir.serde.deserialize_model(mp)
+                m = self._as_ir(mp)
                 r = self.long["rewrite_pass"](m)
                 return {"model": self._serialize(r.model), "modified": str(bool(r.modified))}
         else:
@@ -411,18 +450,18 @@ class Runtime:
             if op.get("pre_optimize"):
                 import onnxscript.optimizer as opt
 
-                m = ir.serde.deserialize_model(mp)
+                m = self._as_ir(mp)
                 opt.optimize(m)
                 n = rs.apply_to_model(m)
                 return {"model": self._serialize(m), "count": str(n)}
             if api == "proto":
                 out = rewriter.rewrite(mp, rs)
             elif api == "apply":
-                m = ir.serde.deserialize_model(mp)
+                m = self._as_ir(mp)
                 n = rs.apply_to_model(m)
                 return {"model": self._serialize(m), "count": str(n)}
             else:
-                out = rewriter.rewrite(ir.serde.deserialize_model(mp), rs)
+                out = rewriter.rewrite(self._as_ir(mp), rs)
         return {"model": self._serialize(out)}
 
     def op_convert(self, op: dict) -> dict:
@@ -437,14 +476,14 @@ class Runtime:
             vc.convert_version(mp, target, fallback=fallback)
             out = mp
         elif api == "ir":
-            m = ir.serde.deserialize_model(mp)
+            m = self._as_ir(mp)
             vc.convert_version(m, target, fallback=fallback)
             out = m
         else:
             key = ("convert_pass", target, fallback)
             if key not in self.long:
                 self.long[key] = vc.ConvertVersionPass(target_version=target, fallback=fallback)
-            m = ir.serde.deserialize_model(mp)
+            m = self._as_ir(mp)
             r = self.long[key](m)
             return {"model": self._serialize(r.model), "modified": str(bool(r.modified))}
         return {"model": self._serialize(out)}
